@@ -222,6 +222,23 @@ func checkC17(p *Prog, r *Report) {
 			}
 			n++
 			hdr := stripConv(c.Common().Args[2])
+			// the header may be built by a single-return helper: look at its result
+			// expression and map its parameters back to the call's arguments
+			argOf := func(v ssa.Value) ssa.Value { return v }
+			if hcall, isCall := hdr.(*ssa.Call); isCall {
+				if res := stripConv(helperResult(hcall)); res != ssa.Value(hcall) {
+					callee := hcall.Common().StaticCallee()
+					argOf = func(v ssa.Value) ssa.Value {
+						for i, pp := range callee.Params {
+							if ssa.Value(pp) == stripConv(v) && i < len(hcall.Common().Args) {
+								return hcall.Common().Args[i]
+							}
+						}
+						return v
+					}
+					hdr = res
+				}
+			}
 			or, ok := hdr.(*ssa.BinOp)
 			okHdr := ok && or.Op == token.OR
 			var lenPart ssa.Value
@@ -238,7 +255,7 @@ func checkC17(p *Prog, r *Report) {
 			why := "header is not (mplexBase+tag)<<24 | uint32(length)"
 			if lenPart != nil {
 				why = "encoded length is not bounded by a constant ≤ maxMessageSize (a payload ≥ 2^24 spills into the tag byte)"
-				core := stripConv(lenPart)
+				core := stripConv(argOf(lenPart))
 				// min(len(p), K)
 				if call, isCall := core.(*ssa.Call); isCall {
 					if bi, isB := call.Common().Value.(*ssa.Builtin); isB && bi.Name() == "min" {
@@ -321,15 +338,16 @@ func checkMuxReadTable(p *Prog, r *Report) {
 		c, i := extractOf(v)
 		return c != nil && i == idx && c.Common().StaticCallee() == rm
 	}
+	var pe *PathEnum
 	atom := func(cond ssa.Value) (string, bool, bool) {
 		bo, ok := cond.(*ssa.BinOp)
 		if !ok {
 			return "", false, false
 		}
-		if (bo.Op == token.NEQ || bo.Op == token.EQL) && isRM(bo.X, 2) && isNilConst(bo.Y) {
+		if (bo.Op == token.NEQ || bo.Op == token.EQL) && isRM(pe.C(bo.X), 2) && isNilConst(bo.Y) {
 			return "E", bo.Op == token.EQL, true
 		}
-		if (bo.Op == token.EQL || bo.Op == token.NEQ) && isRM(bo.X, 0) {
+		if (bo.Op == token.EQL || bo.Op == token.NEQ) && isRM(pe.C(bo.X), 0) {
 			if k, isK := constInt(bo.Y); isK {
 				if n, ok := tagVals[k]; ok {
 					return n, bo.Op == token.NEQ, true
@@ -341,7 +359,8 @@ func checkMuxReadTable(p *Prog, r *Report) {
 		}
 		return "", false, false
 	}
-	pe := &PathEnum{Atom: atom, BackEdge: "loop", Excl: [][2]string{{"MsgData", "MsgInfo"}, {"MsgData", "MsgError"}, {"MsgInfo", "MsgError"}},
+	pe = &PathEnum{Atom: atom, BackEdge: "loop", Excl: [][2]string{{"MsgData", "MsgInfo"}, {"MsgData", "MsgError"}, {"MsgInfo", "MsgError"}},
+		Inline: func(h *ssa.Function) bool { return h != rm }, // a tag-dispatch helper split out of Read
 		Event: func(in ssa.Instruction) string {
 			if c, ok := in.(ssa.CallInstruction); ok {
 				if bi, ok := c.Common().Value.(*ssa.Builtin); ok && bi.Name() == "copy" {
